@@ -37,7 +37,38 @@ var vfC44Cur struct {
 	rec *vfC44Rec
 }
 
+// vfC44Lib stands for the libraries in use: Trigger_<table> is found through core.Libload (as a library record would be)
+// and cached by core.Global until it is unloaded, which is what saving or deleting a library record does.
+var vfC44Lib struct {
+	sync.Mutex
+	defs  map[string]core.Value // what the library holds now
+	avail map[string]core.Value // the recording functions
+}
+
+// vfC44Define saves (on) or deletes (!on) the trigger definition of the table in the library and unloads the name.
+func vfC44Define(table string, on bool) {
+	name := "Trigger_" + table
+	vfC44Lib.Lock()
+	if on {
+		vfC44Lib.defs[name] = vfC44Lib.avail[name]
+	} else {
+		delete(vfC44Lib.defs, name)
+	}
+	vfC44Lib.Unlock()
+	core.Global.Unload(name)
+}
+
 func vfC44Install() {
+	vfC44Lib.defs = map[string]core.Value{}
+	vfC44Lib.avail = map[string]core.Value{}
+	core.Libload = func(_ *core.Thread, name string) (core.Value, any) {
+		vfC44Lib.Lock()
+		defer vfC44Lib.Unlock()
+		if v, ok := vfC44Lib.defs[name]; ok {
+			return v, nil
+		}
+		return nil, nil
+	}
 	MakeSuTran = func(ut *UpdateTran) *core.SuTran {
 		st := core.NewSuTran(nil, true)
 		vfC44Cur.Lock()
@@ -90,7 +121,7 @@ func vfC44Install() {
 			return nil
 		}, BuiltinParams: core.BuiltinParams{ParamSpec: core.ParamSpec{Nparams: 3, Flags: []core.Flag{0, 0, 0},
 			Names: []string{"t", "oldrec", "newrec"}, Name: "Trigger_" + table}}}
-		core.Global.TestDef("Trigger_"+table, fn)
+		vfC44Lib.avail["Trigger_"+table] = fn
 	}
 }
 
@@ -142,9 +173,28 @@ func TestVerifC44(t *testing.T) {
 		model := vfNewModel(s.sc)
 		disabled := map[string]int{}
 		var hist []any
-		cascades, disabledSeen, throws := 0, 0, 0
+		emptyRows := 0
+		cascades, disabledSeen, throws, undefinedSeen := 0, 0, 0, 0
+		defined := map[string]bool{}
+		lateDefs := 0
+		for _, tb := range []string{"t1", "t2", "t4"} {
+			defined[tb] = r.IntN(4) != 0 // a quarter start without a definition: the first changes go unobserved, by design
+			vfC44Define(tb, defined[tb])
+			hist = append(hist, fmt.Sprint("defined ", tb, " ", defined[tb]))
+		}
 		ntx := 6 + r.IntN(9)
 		for tx := 0; tx < ntx; tx++ {
+			// the trigger definition is saved to / deleted from the library between transactions
+			for _, tb := range []string{"t1", "t2", "t4"} {
+				if r.IntN(10) == 0 {
+					defined[tb] = !defined[tb]
+					vfC44Define(tb, defined[tb])
+					hist = append(hist, fmt.Sprint("define ", tb, " ", defined[tb]))
+					if defined[tb] {
+						lateDefs++
+					}
+				}
+			}
 			// nested disable / enable between transactions
 			for _, tb := range []string{"t1", "t2", "t4"} {
 				switch r.IntN(12) {
@@ -177,8 +227,11 @@ func TestVerifC44(t *testing.T) {
 						disabledSeen++
 						return
 					}
-					if tb == "t3" {
-						return // no trigger defined
+					if tb == "t3" || !defined[tb] {
+						if tb != "t3" {
+							undefinedSeen++
+						}
+						return // no trigger defined (at the moment)
 					}
 					expect = append(expect, vfC44Call{table: tb, old: old, new: new})
 				}
@@ -187,6 +240,10 @@ func TestVerifC44(t *testing.T) {
 				switch k := r.IntN(10); {
 				case k < 4:
 					row := s.genRow(r, table, payload)
+					if table == "t4" && r.IntN(3) == 0 {
+						row = vfRow{"", "", ""} // a row whose fields are all empty is still a row
+						emptyRows++
+					}
 					if table == "t2" && len(work.tabs["t1"]) > 0 && r.IntN(5) != 0 {
 						// reference an existing t1 row so that cascades have something to do
 						_, t1rows := work.sorted("t1", 0)
@@ -201,11 +258,18 @@ func TestVerifC44(t *testing.T) {
 					run = func() { ut.Output(th, table, vfRec(row)) }
 				case k < 8:
 					pk := s.sc.key(table, 0, s.genRow(r, table, ""))
+					if table == "t4" && len(work.tabs["t4"]) > 0 && r.IntN(2) == 0 {
+						_, rows := work.sorted("t4", 0)
+						pk = s.sc.key(table, 0, rows[r.IntN(len(rows))])
+					}
 					old := work.tabs[table][pk]
 					if old == nil {
 						continue
 					}
 					newr := s.genRow(r, table, payload)
+					if table == "t4" && r.IntN(4) == 0 {
+						newr = vfRow{"", "", ""}
+					}
 					switch r.IntN(4) {
 					case 0:
 						for _, c := range def.idxs[0].cols {
@@ -253,6 +317,10 @@ func TestVerifC44(t *testing.T) {
 					run = func() { ut.Update(th, table, rec0.Off, vfRec(newr)) }
 				default:
 					pk := s.sc.key(table, 0, s.genRow(r, table, ""))
+					if table == "t4" && len(work.tabs["t4"]) > 0 && r.IntN(2) == 0 {
+						_, rows := work.sorted("t4", 0)
+						pk = s.sc.key(table, 0, rows[r.IntN(len(rows))])
+					}
 					old := work.tabs[table][pk]
 					if old == nil {
 						continue
@@ -377,6 +445,9 @@ func TestVerifC44(t *testing.T) {
 		rep.Count("cascaded_row_changes", cascades)
 		rep.Count("calls_suppressed_by_disable", disabledSeen)
 		rep.Count("trigger_throws", throws)
+		rep.Count("changes_while_trigger_not_defined", undefinedSeen)
+		rep.Count("trigger_defined_during_history", lateDefs)
+		rep.Count("all_empty_rows_output", emptyRows)
 		if rep.WantSample() && h%50 == 0 {
 			rep.Sample(map[string]any{"history": h, "ops": hist})
 		}
